@@ -31,10 +31,10 @@ SWAPPED = {"fpr": "fnr", "tpr": "tnr", "topr": "tonr", "fnr": "fpr", "tnr": "tpr
 
 def bounds(tier):
     if tier == "quick":
-        return {"max_pos": 3, "max_neg": 3, "easy": [[0, 0], [1, 2], [3, 0]], "grids": ["irregular", "dyadic", "int"],
+        return {"max_pos": 3, "max_neg": 3, "easy": [[0, 0], [1, 2], [3, 0]], "grids": ["irregular", "dyadic", "int", "ulp"],
                 "affine": AFFINE}
     return {"max_pos": 4, "max_neg": 4, "easy": [[0, 0], [1, 2], [3, 0], [0, 1], [2, 2]],
-            "grids": ["irregular", "dyadic", "int"], "affine": AFFINE}
+            "grids": ["irregular", "dyadic", "int", "ulp"], "affine": AFFINE}
 
 
 def work(tier, seed):
@@ -116,7 +116,10 @@ def run(item, ctx, tier, seed):
                     ctx.fail("negation-leaves-matrix-unchanged", dict(case, threshold=T[k]), observed=mn[k],
                              expected=m0[k])
             # ---------------------------------------------------- affine maps
-            if item["grid"] != "int":
+            if item["grid"] == "ulp":
+                # scores one ulp apart (1.5, 1.5+ulp, ...): the exact shift by -1.5 pulls them many ulps apart
+                maps = [(1.0, -1.5), (2.0, -3.0)]
+            elif item["grid"] != "int":
                 maps = [tuple(m) for m in b["affine"]]
             else:
                 maps = [(2, 1), (3, -100)]  # integer maps keep the integer dtype of the scores
@@ -190,8 +193,17 @@ def run(item, ctx, tier, seed):
                                 ctx.fail("affine-maps-thresholds", dict(case, metric=metric, r=float(targets[k]), a=a_, b=b_, method=method),
                                          observed=float(ta[k]), expected=a_ * float(tm0[k]) + b_)
                                 break
-            # EER / AUC
-            if both:
+            # EER / AUC (no EER clauses on the one-ulp grid: thresholds cannot be interpolated between adjacent
+            # floats, so such scores behave like ties for the EER search - cf. D12)
+            if both and item["grid"] == "ulp":
+                ok_a, auc0 = guarded(ctx, "auc", case, lambda: float(s.auc()))
+                for a_, b_, sa in objs:
+                    if ok_a:
+                        ok3, auca = guarded(ctx, "affine-auc", dict(case, a=a_, b=b_), lambda: float(sa.auc()))
+                        ctx.tick()
+                        if ok3 and not abs(auca - auc0) <= 1e-9:
+                            ctx.fail("affine-leaves-auc-unchanged", dict(case, a=a_, b=b_), observed=auca, expected=auc0)
+            elif both:
                 ok, (t_e, e) = guarded(ctx, "eer", case, s.eer)
                 ok_a, auc0 = guarded(ctx, "auc", case, lambda: float(s.auc()))
                 if ok:
